@@ -122,15 +122,29 @@ theorem C17_reject_missing_handler (timeout : Nat) (onTimeout : Option Nat) :
 
 /-- a handler that has started is not cancelled by the transition it triggers: whatever its event
 exits — including its own state, whose `exit` calls `cancel()` on the running timer — the handler
-runs to its end (`firedEnd` closes the firing), and that `cancel()` is without effect -/
+runs to its end (`firedEnd` closes the firing), and that `cancel()` is without effect.  `hq`: no
+callback of the triggered transitions lets an exception escape into the handler -/
 theorem C17_async_started_handler_survives (cfg : Cfg) (i : Nat) (st : St) (t : Timer)
-    (hi : st.timers[i]? = some t) (hw : t.phase = .waiting) (hr : cfg.raises t.s = false) :
+    (hi : st.timers[i]? = some t) (hw : t.phase = .waiting) (hr : cfg.raises t.s = false)
+    (hq : ∀ s e prog d, cfg.resolve s e ≠ some (.move prog d true)) :
     (∃ mid, (fire cfg i st).log = st.log ++ .fired t.m t.s :: mid ++ [.firedEnd t.m t.s]) ∧
     (∀ (st' : St) (t' : Timer), st'.runner t.s t.m = some i → st'.timers[i]? = some t' → t'.phase = .running →
       (tExit t.m t.s st').timers = st'.timers) := by
   constructor
   · obtain ⟨mid, h⟩ := fire_log cfg i st t hi hw
-    exact ⟨mid, by rw [h]; simp [hr]⟩
+    have hnr : handlerRaises cfg st i t = false := by
+      unfold handlerRaises
+      cases cfg.action t.s with
+      | none => rfl
+      | some e =>
+        simp only [triggerRaises]
+        split
+        · rename_i prog d r heq
+          cases r with
+          | false => rfl
+          | true => exact absurd heq (hq _ _ _ _)
+        · rfl
+    exact ⟨mid, by rw [h, hnr, hr]; simp⟩
   · intro st' t' h1 h2 h3
     exact tExit_running t.m t.s i st' t' h1 h2 h3
 
@@ -151,8 +165,22 @@ def c17Cfg : Cfg :=
     action := fun s => if s = 1 then some 0 else none
     raises := fun _ => false, onExc := false, async := false
     resolve := fun s e =>
-      if e = 0 then (if s = 1 then some (.move [1] [2] 2) else some (.move [2] [1] 1))
+      if e = 0 then (if s = 1 then some (.move [(false, 1), (true, 2)] 2 false) else some (.move [(false, 2), (true, 1)] 1 false))
       else if e = 1 then some .stay else none }
+
+/-- an on_enter callback of state 1 that moves the model on at once (re-entrant trigger): the engine's
+calls are enter 1, exit 1, enter 2 within one event; the timer started by `enter 1` is cancelled by the
+`exit 1` that follows, so nothing fires (the order timer-start / callbacks matters exactly here) -/
+def c17ReentrantCfg : Cfg :=
+  { c17Cfg with action := fun _ => none,
+                resolve := fun _ e => if e = 0 then some (.move [(false, 2), (true, 1), (false, 1), (true, 2)] 2 false) else none }
+
+example : (run c17ReentrantCfg [.ev 0 0, .tick [], .tick [], .tick []] (St.init fun _ => 2)).log =
+    [.exit 0 2, .enter 0 1, .exit 0 1, .enter 0 2, .tick, .tick, .tick] := by decide
+
+/-- what the acceptor says about the other order (timer started after the callbacks returned) -/
+example : accepts (specOf c17ReentrantCfg)
+    [.exit 0 2, .enter 0 1, .exit 0 1, .enter 0 2, .tick, .tick, .fired 0 1, .firedEnd 0 1, .tick] = false := by decide
 
 /-- enter 1, leave it after one tick (timer cancelled), enter it again, an internal event, wait two ticks: fires -/
 def c17Hist : List Op := [.ev 0 0, .tick [], .ev 0 0, .ev 0 0, .ev 0 1, .tick [], .tick [], .tick []]
@@ -179,7 +207,7 @@ example : accepts (specOf c17Cfg) [.enter 0 1, .enter 1 1, .tick, .exit 1 1, .ti
 
 /-- an engine that enters state 1 again without leaving it -/
 def c17LeakCfg : Cfg :=
-  { c17Cfg with action := fun _ => none, resolve := fun _ e => if e = 0 then some (.move [] [1] 1) else some (.move [1] [2] 2) }
+  { c17Cfg with action := fun _ => none, resolve := fun _ e => if e = 0 then some (.move [(true, 1)] 1 false) else some (.move [(false, 1), (true, 2)] 2 false) }
 
 /-- without the bracketing hypothesis the property is false of the code as modelled: the second
 `enter` overwrites the runner slot, the first timer can no longer be cancelled and fires after the
